@@ -180,6 +180,39 @@ def check_single_pass_expansion(ctx, mods) -> None:
     ctx.floor(rule, n, 2, "single-pass substitution calls")
 
 
+LOAD_PATH = ("python/experiment/model/conf.py", "python/experiment/model/frontends/flowir.py", "python/experiment/model/frontends/dosini.py",
+             "python/experiment/model/frontends/dsl.py", "python/experiment/model/graph.py", "python/experiment/model/storage.py",
+             "python/experiment/model/data.py")
+
+
+def check_module_memos(ctx, rule: str, consequence: str) -> None:
+    """No function of the load path writes into a module-level list/dict/set (a process-wide memo).  Shared by C15.R6 and C07.R11.
+    Expected count on a healthy tree is zero; the selftest keeps a positive example (a parse cache keyed by path and mtime)."""
+    from vlib import state
+    n_fn = 0
+    hits = []
+    for rel in LOAD_PATH:
+        mm = ctx.repo.module(rel)
+        globs = state.module_mutable_globals(mm.tree)
+        for q, f in mm.functions.items():
+            if q.count(".") > 1:
+                continue
+            n_fn += 1
+            if not globs:
+                continue
+            for (node, name, how) in state.module_global_writes(f, globs):
+                hits.append((rel, q, node, name, how))
+    for (rel, q, node, name, how) in hits:
+        ctx.ob(rule, node, False,
+               "%s writes into the module-level object %s of %s (%s): it outlives the call and is shared by every later load in the "
+               "process - %s" % (q, name, rel.split("/")[-1], how, consequence), construct="%s: %s of module-level %s" % (q, how, name))
+    if not hits:
+        ctx.ob(rule, ctx.repo.module(LOAD_PATH[0]).tree, True,
+               "no function of the load path writes into a module-level list/dict/set (%d functions inspected)" % n_fn,
+               construct="module-level state of the load path is never written by its functions")
+    ctx.floor(rule, n_fn, 500, "functions of the load-path modules inspected for module-level memos")
+
+
 def check_rekeying(ctx, mods) -> None:
     RID = "C15.R8-key-normalisation-in-sorted-order"
     NORMALISERS = ("lower", "upper", "strip", "casefold", "title")
@@ -485,6 +518,9 @@ def run(ctx) -> None:
                "no function of the load path stores a mutable object into class-level state (%d functions; scalar memos: %s)"
                % (n_fn, sorted({a for _, _, a in scalar_memos}) or "none"), construct="class-level state of the load path is immutable")
     ctx.floor("C15.R6-no-process-wide-memo", n_fn, 500, "functions of the load-path modules inspected")
+
+    check_module_memos(ctx, "C15.R6-no-process-wide-memo",
+                       "the same package and options resolve differently than in a fresh process once the memo holds something stale")
 
     # ---------------- R7 -------------------------------------------------------------------------------
     # helper functions (nested or module-level) of dsl.py whose result is used as a key of a mapping
